@@ -35,6 +35,15 @@ func (s *DiscoveryStrategy) Name() string {
 	return StrategyDiscovery
 }
 
+// rejectionReason keeps "no endpoint lists the model" (not found, 404) apart from "the model is
+// listed but cannot be routed to right now" (unavailable, 503), as the strict strategy does
+func rejectionReason(modelEndpoints []string, unavailableReason string) string {
+	if len(modelEndpoints) == 0 {
+		return constants.RoutingReasonModelNotFound
+	}
+	return unavailableReason
+}
+
 // GetRoutableEndpoints refreshes discovery then routes based on updated model information
 func (s *DiscoveryStrategy) GetRoutableEndpoints(
 	ctx context.Context,
@@ -76,7 +85,7 @@ func (s *DiscoveryStrategy) GetRoutableEndpoints(
 		return nil, ports.NewRoutingDecision(
 				s.Name(),
 				ports.RoutingActionRejected,
-				constants.RoutingReasonModelUnavailableNoRefresh,
+				rejectionReason(modelEndpoints, constants.RoutingReasonModelUnavailableNoRefresh),
 			), domain.NewModelRoutingError(
 				modelName,
 				s.Name(),
@@ -181,7 +190,7 @@ func (s *DiscoveryStrategy) GetRoutableEndpoints(
 		return nil, ports.NewRoutingDecision(
 				s.Name(),
 				ports.RoutingActionRejected,
-				constants.RoutingReasonNoHealthyAfterDiscovery,
+				rejectionReason(modelEndpoints, constants.RoutingReasonNoHealthyAfterDiscovery),
 			), domain.NewModelRoutingError(
 				modelName,
 				s.Name(),
@@ -200,7 +209,7 @@ func (s *DiscoveryStrategy) GetRoutableEndpoints(
 		return nil, ports.NewRoutingDecision(
 				s.Name(),
 				ports.RoutingActionRejected,
-				constants.RoutingReasonModelUnavailableAfterDiscovery,
+				rejectionReason(modelEndpoints, constants.RoutingReasonModelUnavailableAfterDiscovery),
 			), domain.NewModelRoutingError(
 				modelName,
 				s.Name(),
